@@ -483,7 +483,8 @@ def _bad_model(x):
 # --------------------------------------------------------------------------
 # verdicts
 # --------------------------------------------------------------------------
-THMS = ["c12_sound", "c12_complete", "c12_exact", "c12_limits_fail_closed", "c12_batch", "c12_caveats"]
+THMS = ["c12_sound", "c12_complete", "c12_exact", "c12_limits_fail_closed", "c12_batch", "c12_caveats",
+        "c12_same_tuples_same_answer", "c12_more_tuples_only_grant"]
 
 
 def single(case, q, lm, **extra):
@@ -1983,6 +1984,61 @@ def gen_random_cases(chk):
     return out
 
 
+# ---- the store as a set (coq/theories/RebacMono.v) -----------------------------
+def gen_setmono_cases(chk):
+    """groups of three stores for c12_same_tuples_same_answer / c12_more_tuples_only_grant: a layered graph, the same
+    tuples in another insertion order with some repeated, and a superset.  No deadline, generous node budget."""
+    rng = chk.rng
+    out = []
+    for g in range(250 if chk.tier == "quick" else 3000):
+        store, rules, reg, queries = gen_layered(rng)
+        ctx = rng.choice(CTXS)
+        perm = [list(t) for t in store]
+        rng.shuffle(perm)
+        for _ in range(rng.randint(0, 3)):
+            if perm:
+                perm.insert(rng.randrange(len(perm) + 1), list(rng.choice(store)))
+        more = [list(t) for t in store]
+        names = sorted({t[0] for t in store} | {t[2] for t in store})
+        for _ in range(rng.randint(1, 4)):
+            t = [rng.choice(names), rng.choice(["parent", "viewer", "editor", "owner", "member", "granted"]),
+                 rng.choice(names), rng.choice(CAVS) if rng.random() < 0.2 else None]
+            more.insert(rng.randrange(len(more) + 1), t)
+        lms = [lim(rng.choice([0, 1, 2, 3, 8]), 10000)]
+        for variant, st in (("base", store), ("perm", perm), ("more", more)):
+            out.append({"store": st, "rules": rules, "reg": reg, "ctx": ctx, "queries": queries, "limits": lms,
+                        "fam": "setmono", "grp": g, "variant": variant})
+    return out
+
+
+def setmono_compare(chk, cases):
+    """the implementation against itself on each group (every member is also judged against the model by
+    check_cases): equal answers on equal tuple sets, and no True lost when tuples are added."""
+    impl = Impl()
+    try:
+        for i in range(0, len(cases) - 2, 3):
+            base, perm, more = cases[i:i + 3]
+            ans = []
+            for c in (base, perm, more):
+                st, rules, reg = impl.build(c)
+                ans.append([impl.check(st, rules, reg, c.get("ctx"), q, c["limits"][0]) for q in c["queries"]])
+            for qi, q in enumerate(base["queries"]):
+                a, b, m = ans[0][qi], ans[1][qi], ans[2][qi]
+                chk.count("setmono:" + ("true" if a is True else "false" if a is False else "other"))
+                if a != b:
+                    chk.violation("the same tuples in another insertion order / with repeats give another answer "
+                                  "(no deadline, node budget 10000): c12_same_tuples_same_answer, c12_store_is_a_set",
+                                  {"base": single(base, q, base["limits"][0]), "perm_store": perm["store"]},
+                                  impl={"base": a, "perm": b})
+                if a is True and m is not True:
+                    chk.violation("an answer True is lost after tuples were ADDED to the store (no deadline, node "
+                                  "budget 10000): c12_more_tuples_only_grant",
+                                  {"base": single(base, q, base["limits"][0]), "more_store": more["store"]},
+                                  impl={"base": a, "more": m})
+    finally:
+        impl.restore()
+
+
 # ---- histories ---------------------------------------------------------------
 HX = [None, {}, {"ok": True, "hour": 10}, {"ok": False, "hour": 22}]     # raise / raise / true / false for "ctx", "hour"
 H_CHECKERS = [[None, None, None], [1, 10000, 50]]
@@ -2367,6 +2423,10 @@ def run(chk):
     chk.extra["helper_histories"] = len(hh)
     for i in range(0, len(hh), 400):
         check_cases(chk, hh[i:i + 400])
+    sm = gen_setmono_cases(chk)
+    chk.extra["setmono_groups"] = len(sm) // 3
+    check_cases(chk, sm)
+    setmono_compare(chk, sm)
     # _split_ref (private helper; skipped when it is gone)
     from rbacx.rebac import local as L
 
